@@ -307,7 +307,7 @@ def shrink(case, pred):
 
 
 B2_SIGNATURE = "C02:iterator-chunk-key-is-a-marker-key"
-B1_SIGNATURE = "C02_time_condition_keeps_condition:condition-dropped-by-time-condition"
+B1_SIGNATURE = "D52:condition-dropped-by-time-condition"
 
 
 def side_finding(case):
@@ -325,7 +325,7 @@ def signature_of(case, trace, idx, msg) -> str:
         return B2_SIGNATURE
     if "&" in case["cond"] and ("rejected" in msg or "executed although" in msg or "started although" in msg):
         # condition= together with time_condition=: the decorator's condition is replaced by the time condition
-        # (candidate defect (1) of round 4; repaired by proposed_fixes/pending/C02_time_condition_keeps_condition.diff)
+        # (candidate defect (1) of round 4; repaired by proposed_fixes/D52_C02_time_condition_keeps_condition.diff)
         return B1_SIGNATURE
     if "not the exception that was raised" in msg:
         return "replayed-exception-differs-from-raised"
